@@ -79,12 +79,17 @@ theorem fd_fallback_dead {α : Type} [NumOps α] (h fd : Mat α) : finalHessian 
 
 /-! ### write-back -/
 
-/-- **After estimation** the i-th free parameter holds the i-th estimate, whatever it held
-before; a parameter whose name is not estimated (every fixed parameter) is untouched. -/
+/-- **After estimation** (every number type, `Float` included) the i-th free parameter holds
+the i-th estimate — or, when the guard `value != self.initValue` of `Beta.change_init_values`
+says the estimate equals what the parameter already holds, what it already holds (on doubles
+this is the same number up to the sign of zero) —, whatever it held before; name and status
+are kept; a parameter whose name is not estimated (every fixed parameter) is untouched. -/
 theorem writeback {α : Type} [NumOps α] (ps : List (Param α)) (names : List String) (x : Vec α)
     (hn : names.Nodup) (hlen : x.length = names.length) (k : Nat) (hk : k < ps.length) :
     (∀ i (hi : i < names.length), (ps[k]).name = names[i] →
-        ((writeBack ps (estimates names x))[k]'(by rw [writeBack_length]; exact hk)).value = x[i]'(by omega) ∧
+        (((writeBack ps (estimates names x))[k]'(by rw [writeBack_length]; exact hk)).value = x[i]'(by omega) ∨
+         (Num.eq (x[i]'(by omega)) (ps[k]).value = true ∧
+          ((writeBack ps (estimates names x))[k]'(by rw [writeBack_length]; exact hk)).value = (ps[k]).value)) ∧
         ((writeBack ps (estimates names x))[k]'(by rw [writeBack_length]; exact hk)).name = names[i] ∧
         ((writeBack ps (estimates names x))[k]'(by rw [writeBack_length]; exact hk)).fixed = (ps[k]).fixed) ∧
     ((ps[k]).name ∉ names →
@@ -94,11 +99,24 @@ theorem writeback {α : Type} [NumOps α] (ps : List (Param α)) (names : List S
     rw [writeBack_get ps _ k hk]
     unfold updateParam estimates
     rw [hname, lookup_zip_of_nodup names x hn i hi (by omega)]
-    exact ⟨rfl, rfl, rfl⟩
+    simp only []
+    split
+    · next he => exact ⟨Or.inr ⟨he, rfl⟩, hname, rfl⟩
+    · exact ⟨Or.inl rfl, rfl, rfl⟩
   · intro hnot
     rw [writeBack_get ps _ k hk]
     unfold updateParam estimates
     rw [lookup_zip_none names x _ hnot]
+
+/-- **over the reals the guard is invisible**: after estimation the i-th free parameter holds
+exactly the i-th estimate (the clause of the property) -/
+theorem writeback_real (ps : List (Param ℝ)) (names : List String) (x : Vec ℝ)
+    (hn : names.Nodup) (hlen : x.length = names.length) (k : Nat) (hk : k < ps.length)
+    (i : Nat) (hi : i < names.length) (hname : (ps[k]).name = names[i]) :
+    ((writeBack ps (estimates names x))[k]'(by rw [writeBack_length]; exact hk)).value = x[i]'(by omega) := by
+  rcases ((writeback ps names x hn hlen k hk).1 i hi hname).1 with h | ⟨he, h⟩
+  · exact h
+  · rw [h]; exact ((NumR.eq_real _ _).mp he).symm
 
 /-! ### bootstrap, and sequences of operations on one object -/
 
@@ -346,9 +364,11 @@ example (like : Vec ℝ → ℝ) (ev : Vec ℝ → Eval ℝ) (x0 : Vec ℝ) :
     OptContract (fun _ _ _ _ x => ⟨x, false⟩) false like ev [] x0 :=
   ⟨rfl, fun h => Bool.noConfusion h, le_refl _⟩
 
-/-- write-back on a concrete parameter list with a fixed parameter -/
-example : (writeBack [⟨"b2", (0 : Int), false⟩, ⟨"fix", 7, true⟩, ⟨"b10", 0, false⟩] (estimates ["b10", "b2"] [5, 3])).map (·.value)
-    = [3, 7, 5] := by decide
+/-- write-back on a concrete parameter list with a fixed parameter; `b10` already holds its
+estimate (the guarded assignment is skipped, the value is the estimate all the same) -/
+example : (writeBack [⟨"b2", (0 : ℝ), false⟩, ⟨"fix", 7, true⟩, ⟨"b10", 5, false⟩] (estimates ["b10", "b2"] [5, 3])).map (·.value)
+    = [3, 7, 5] := by
+  simp [writeBack, updateParam, estimates, List.lookup, Num.eq, NumOps.eq]
 
 /-- a session: estimate with a two-sample bootstrap, an evaluation, then a second estimate without
 bootstrapping — two results objects, one bootstrap row per sample in the first, none in the second -/
